@@ -282,7 +282,19 @@ pub fn gen_absdb(rng: &mut Rng, case: u64, cfg: &AbsCfg, force: Option<&'static 
     }
     let mut streams = BTreeMap::new();
     for _ in 0..rng.usize(3) {
-        let n = format!("Bin.{}", tok());
+        // names in every packing situation: pairs, a lone last character (each of the 64 packable ones is stored
+        // as its own code), unpackable characters, the longest names that fit
+        let t = tok();
+        let n = match rng.below(8) {
+            0 => format!("Bin.{}", t),
+            1 => format!("{}_", t),
+            2 => format!("{}{}", t, rng.pick(&['_', '.', '9', 'z', 'A', '0', 'Z'])),
+            3 => format!("_{}", t),
+            4 => format!("{}é{}", t, rng.pick(&["", "_", "ab", "a"])),
+            5 => format!("{}-{}", t, rng.pick(&["", "_", "ab", "a"])),
+            6 => format!("{}{}", t, "_".repeat(61usize.saturating_sub(t.len()))),
+            _ => format!("{}{}", t, "p".repeat(62usize.saturating_sub(t.len()))),
+        };
         let len = *rng.pick(&[0usize, 5, 4096, 5000]);
         streams.insert(n, (0..len).map(|i| (i * 7) as u8).collect());
     }
